@@ -124,7 +124,7 @@ class Ctx:
         # payload of a successful integer conversion: (usize::try_from(x) as Ok).0  /  (Try::branch(..) as Continue).0
         if t[0] == "field" and t[1][0] == "downcast" and t[1][2] in ("Ok", "Continue", "Some"):
             inner = T.strip(t[1][1])
-            while inner[0] == "call" and (inner[1].endswith("::branch") or inner[1].endswith("::ok") or inner[1].endswith("::map_err")) and inner[2]:
+            while inner[0] == "call" and inner[1].endswith(("::branch", "::ok", "::map_err", "::ok_or", "::ok_or_else")) and inner[2]:
                 inner = T.strip(inner[2][0])
             # a merged Result / Option of which exactly one alternative carries a value (`match r { Ok(v) => Ok(v), Err(_) => Err(e) }`,
             # what `r.map_err(|_| e)` stands for): the payload is that alternative's
